@@ -13,6 +13,11 @@ pub struct GenOpts {
     pub allow_custom: bool,
     pub allow_attrs: bool,
     pub replies: bool,
+    /// legacy reply handlers / overridden entry points in fam_msg programs
+    pub legacy_reply: bool,
+    pub overrides: bool,
+    /// forward `serde(alias = ..)` through `sv::attr` (C17 only: aliases are invisible to the routing lists)
+    pub aliases: bool,
 }
 
 impl Default for GenOpts {
@@ -24,6 +29,9 @@ impl Default for GenOpts {
             allow_custom: true,
             allow_attrs: true,
             replies: false,
+            legacy_reply: true,
+            overrides: true,
+            aliases: false,
         }
     }
 }
@@ -235,6 +243,9 @@ fn gen_handler(
     if opts.allow_attrs && kind.is_enum() && t.chance(10) {
         variant_attrs.push(VariantAttr::Marker(mk.next()));
     }
+    if opts.aliases && kind.is_enum() && t.chance(40) {
+        variant_attrs.push(VariantAttr::SerdeAlias(format!("al{}_{}", part, name)));
+    }
     Method { name, role: Role::Handler(kind), args, err, resp, resp_explicit, variant_attrs, reply: None }
 }
 
@@ -346,6 +357,47 @@ pub fn gen_msg_program(id: &str, tape: Vec<u32>, opts: &GenOpts) -> Program {
             msg_attrs,
         });
     }
+    // legacy reply handlers (no `sv::features(replies)`): the entry point hands the raw Reply
+    // to the first declared one
+    if opts.legacy_reply && t.chance(25) {
+        let n = 1 + t.pick(2);
+        for k in 0..n {
+            let name = reg.fresh(t, 0, Kind::Reply, false);
+            let pos = t.pick(methods.len() + 1);
+            let _ = k;
+            methods.insert(
+                pos,
+                Method {
+                    name,
+                    role: Role::Handler(Kind::Reply),
+                    args: vec![],
+                    err: if custom_err { ErrTy::Custom } else { ErrTy::Std },
+                    resp: RespTy::EchoA,
+                    resp_explicit: false,
+                    variant_attrs: vec![],
+                    reply: Some(ReplySpec { handlers: vec![], on: ReplyOn::Always, data: DataMode::Absent, data_ty: Ty::U32, payload: Payload::Raw }),
+                },
+            );
+        }
+    }
+    // overridden entry points
+    let mut overrides = vec![];
+    if opts.overrides && t.chance(25) {
+        let mut cands = vec![Kind::Instantiate, Kind::Exec, Kind::Query, Kind::Sudo];
+        if methods.iter().any(|m| m.kind() == Some(Kind::Migrate)) {
+            cands.push(Kind::Migrate);
+        }
+        if methods.iter().any(|m| m.kind() == Some(Kind::Reply)) {
+            cands.push(Kind::Reply);
+        }
+        let n = 1 + t.pick(2);
+        for _ in 0..n {
+            let k = cands[t.pick(cands.len())];
+            if !overrides.contains(&k) {
+                overrides.push(k);
+            }
+        }
+    }
     let mut kinds_present = vec![Kind::Instantiate, Kind::Exec, Kind::Query, Kind::Sudo];
     if methods.iter().any(|m| m.kind() == Some(Kind::Migrate)) {
         kinds_present.push(Kind::Migrate);
@@ -362,7 +414,7 @@ pub fn gen_msg_program(id: &str, tape: Vec<u32>, opts: &GenOpts) -> Program {
             custom_msg,
             custom_query,
             replies: false,
-            overrides: vec![],
+            overrides,
             msg_attrs,
             methods,
             entry_points: true,
